@@ -425,3 +425,72 @@ Proof.
     exists o. split; [rewrite firstn_app_exact by congruence; reflexivity|]. split; [exact Hwo|].
     tc_fin Hfm (- val (r0 :: ra) - 1 + ca') (-1). lia.
 Qed.
+
+Theorem bitxor_pos_neg_spec a b : canon a -> canon b -> a <> [] -> b <> [] ->
+  exists d, bitxor_pos_neg a b = Ret d /\ wf d /\ - val d = Z.lxor (val a) (- val b).
+Proof.
+  intros Ha Hb Na Nb. pose proof (canon_val_pos a Ha Na) as Pa. pose proof (canon_val_pos b Hb Nb) as Pb.
+  unfold bitxor_pos_neg. tc_start Z.lxor xorb bitop_lxor false true true 0 1 1 a b Ha Hb.
+  rewrite Va, Vb in *. tc_lens a1 b1 Ea Eb La Lb Hr ra rb.
+  - tc_dead Hcb cb'. cbn [orb Z.eqb assert_ bind].
+    destruct (push1_spec cr' o Hwo Hcr) as [Hwp Hvp]. exists (push1 cr' o). split; [reflexivity|].
+    split; [exact Hwp|]. rewrite Hvp, <- EM. tc_fin Hfm 0 (-1). unfold Z.lnot. lia.
+  - cbn [orb Z.eqb assert_ bind app].
+    tc_tail true false true cb' cr' (s0 :: rb) Hwrb Hcb Hcr.
+    assert (c1' = 0) by (clear Hfm; tc_bits; lia). subst c1'. cbn [orb Z.eqb assert_ bind].
+    assert (Hwd : wf (o ++ t)) by (apply wf_app; auto).
+    destruct (push1_spec c2' (o ++ t) Hwd Hc2') as [Hwp Hvp]. exists (push1 c2' (o ++ t)).
+    split; [reflexivity|]. split; [exact Hwp|]. rewrite Hvp, pow_app_len, Llt, <- EM, Vol, Hvt. fold M'.
+    tc_fin Hfm 0 (- val (s0 :: rb) - 1 + cb'). lia.
+  - tc_dead Hcb cb'. cbn [orb Z.eqb assert_ bind app].
+    tc_tail false true true 0 cr' (r0 :: ra) Hwra bit0 Hcr. cbn [orb Z.eqb assert_ bind].
+    assert (Hwd : wf (o ++ t)) by (apply wf_app; auto).
+    destruct (push1_spec c2' (o ++ t) Hwd Hc2') as [Hwp Hvp]. exists (push1 c2' (o ++ t)).
+    split; [reflexivity|]. split; [exact Hwp|]. rewrite Hvp, pow_app_len, Llt, <- EM, Vol, Hvt. fold M'.
+    tc_fin Hfm (val (r0 :: ra)) (-1). unfold Z.lnot. lia.
+Qed.
+
+Theorem bitxor_neg_pos_spec a b : canon a -> canon b -> a <> [] -> b <> [] ->
+  exists d, bitxor_neg_pos a b = Ret d /\ wf d /\ - val d = Z.lxor (- val a) (val b).
+Proof.
+  intros Ha Hb Na Nb. pose proof (canon_val_pos a Ha Na) as Pa. pose proof (canon_val_pos b Hb Nb) as Pb.
+  unfold bitxor_neg_pos. tc_start Z.lxor xorb bitop_lxor true false true 1 0 1 a b Ha Hb.
+  rewrite Va, Vb in *. tc_lens a1 b1 Ea Eb La Lb Hr ra rb.
+  - tc_dead Hca ca'. cbn [orb Z.eqb assert_ bind].
+    destruct (push1_spec cr' o Hwo Hcr) as [Hwp Hvp]. exists (push1 cr' o). split; [reflexivity|].
+    split; [exact Hwp|]. rewrite Hvp, <- EM. tc_fin Hfm (-1) 0. unfold Z.lnot. lia.
+  - tc_dead Hca ca'. cbn [orb Z.eqb assert_ bind app].
+    tc_tail false true true 0 cr' (s0 :: rb) Hwrb bit0 Hcr. cbn [orb Z.eqb assert_ bind].
+    assert (Hwd : wf (o ++ t)) by (apply wf_app; auto).
+    destruct (push1_spec c2' (o ++ t) Hwd Hc2') as [Hwp Hvp]. exists (push1 c2' (o ++ t)).
+    split; [reflexivity|]. split; [exact Hwp|]. rewrite Hvp, pow_app_len, Llt, <- EM, Vol, Hvt. fold M'.
+    tc_fin Hfm (-1) (val (s0 :: rb)). unfold Z.lnot. lia.
+  - cbn [orb Z.eqb assert_ bind app].
+    tc_tail true false true ca' cr' (r0 :: ra) Hwra Hca Hcr.
+    assert (c1' = 0) by (clear Hfm; tc_bits; lia). subst c1'. cbn [orb Z.eqb assert_ bind].
+    assert (Hwd : wf (o ++ t)) by (apply wf_app; auto).
+    destruct (push1_spec c2' (o ++ t) Hwd Hc2') as [Hwp Hvp]. exists (push1 c2' (o ++ t)).
+    split; [reflexivity|]. split; [exact Hwp|]. rewrite Hvp, pow_app_len, Llt, <- EM, Vol, Hvt. fold M'.
+    tc_fin Hfm (- val (r0 :: ra) - 1 + ca') 0. lia.
+Qed.
+
+Theorem bitxor_neg_neg_spec a b : canon a -> canon b -> a <> [] -> b <> [] ->
+  exists d, bitxor_neg_neg a b = Ret d /\ wf d /\ val d = Z.lxor (- val a) (- val b).
+Proof.
+  intros Ha Hb Na Nb. pose proof (canon_val_pos a Ha Na) as Pa. pose proof (canon_val_pos b Hb Nb) as Pb.
+  unfold bitxor_neg_neg. tc_start Z.lxor xorb bitop_lxor true true false 1 1 0 a b Ha Hb.
+  rewrite Va, Vb in *. tc_lens a1 b1 Ea Eb La Lb Hr ra rb.
+  - tc_dead Hca ca'. tc_dead Hcb cb'. cbn [orb Z.eqb assert_ bind].
+    exists o. split; [reflexivity|]. split; [exact Hwo|]. tc_fin Hfm (-1) (-1).
+    change (Z.lnot (-1)) with 0. lia.
+  - tc_dead Hca ca'. cbn [orb Z.eqb assert_ bind app].
+    tc_tail true true false cb' 0 (s0 :: rb) Hwrb Hcb bit0.
+    assert (c1' = 0) by (clear Hfm; tc_bits; lia). subst c1'. cbn [orb Z.eqb assert_ bind].
+    exists (o ++ t). split; [reflexivity|]. split; [apply wf_app; auto|]. rewrite Vol, Hvt.
+    tc_fin Hfm (-1) (- val (s0 :: rb) - 1 + cb'). unfold Z.lnot. lia.
+  - tc_dead Hcb cb'. cbn [orb Z.eqb assert_ bind app].
+    tc_tail true true false ca' 0 (r0 :: ra) Hwra Hca bit0.
+    assert (c1' = 0) by (clear Hfm; tc_bits; lia). subst c1'. cbn [orb Z.eqb assert_ bind].
+    exists (o ++ t). split; [reflexivity|]. split; [apply wf_app; auto|]. rewrite Vol, Hvt.
+    tc_fin Hfm (- val (r0 :: ra) - 1 + ca') (-1). unfold Z.lnot. lia.
+Qed.
